@@ -84,6 +84,9 @@ pub mod text;
 
 mod lexer;
 
+#[cfg(cooklang_verif)]
+pub mod verif_hooks;
+
 use bitflags::bitflags;
 use serde::{Deserialize, Serialize};
 
